@@ -58,3 +58,20 @@ def valsOK : Vals → Bool
 end
 
 end Chf.Ber
+
+namespace Chf.Ber
+
+/-- the input is a BOOLEAN / INTEGER / ENUMERATED / BIT STRING element (no EXPLICIT wrapper due) whose length octets
+    say 0 — C16: such input is reported as an error (Props.C16.C16_zero_length_element), whatever follows it -/
+def zeroLenPrim (t : Ty) (p : Params) (b : Bytes) : Bool :=
+  (match t with
+   | .bool => true
+   | .enum => true
+   | .bits => true
+   | .int _ => true
+   | _ => false) && !needsUnwrap t p &&
+  (match parseTagAndLength b with
+   | .ok tal => tal.len == 0
+   | _ => false)
+
+end Chf.Ber
